@@ -90,12 +90,51 @@ def lognormal(c):
     c.canary("canary", cdf.f == f_erf(lx))
 
 
+@contract(P, "LogNormal.params_mv", [(D, "LogNormal.params_mv"), (D, "LogNormal.mean"), (D, "LogNormal.variance")])
+def lognormal_roundtrip(c):
+    """the mean/variance parameterisation round-trips: mean(params_mv(m, v)) = m and variance(params_mv(m, v)) = v for
+    m > 0, v > 0.  exp / log / sqrt are uninterpreted; the instances of their algebraic laws the argument uses
+    (each one a true fact about the real functions) are stated explicitly below."""
+    from pyvc.tensor import f_sqrt
+
+    m, v = c.pw("mean"), c.pw("variance")
+    c.require(m.f > 0, v.f > 0)
+    C = _cls(c, "LogNormal")
+    loc, scale = c.call(c.getattr(C, "params_mv"), m, v)
+    q = m.f * m.f
+    w = q + v.f
+    r = f_sqrt(w)
+    a = q / r
+    u = 1 + v.f / q
+    g = f_log(u)
+    c.ensure("loc_formula", loc.f == f_log(a))
+    c.ensure("scale_formula", scale.f == f_sqrt(g))
+    S = f_sqrt(g)
+    L = f_log(a)
+    # law instances: sqrt(x)^2 = x (x >= 0); log u >= 0 for u >= 1; exp(log x) = x (x > 0); exp(x + y) = exp x * exp y
+    c.axiom(z3.And(r > 0, r * r == w))
+    c.axiom(z3.And(g >= 0, S >= 0, S * S == g))
+    c.axiom(f_exp(L) == a)
+    c.axiom(f_exp(g) == u)
+    half = g / 2
+    c.axiom(z3.And(f_exp(half) > 0, f_exp(half) * f_exp(half) == f_exp(g)))
+    c.axiom(f_exp(L + S * S / 2) == f_exp(L) * f_exp(half))
+    c.axiom(f_exp(2 * L + S * S) == f_exp(L) * f_exp(L) * f_exp(g))
+    mean = c.call(c.getattr(C, "mean"), loc, scale)
+    var = c.call(c.getattr(C, "variance"), loc, scale)
+    c.ensure("mean_round_trips", mean.f == m.f)
+    c.ensure("variance_round_trips", var.f == v.f)
+    c.canary("canary_mean_is_loc", mean.f == loc.f)
+
+
 ASSUMPTIONS = [
     "exp/log/sqrt/lgamma/erf/gammaincc are uninterpreted real functions (exp/log/sqrt with their algebraic axioms); float constants such as sqrt(2*pi) are the exact rationals of their IEEE values",
-    "NOT reachable (declared): integrals of densities, sums of pmf, moments as integrals, LogNormal.params_mv round trip (needs exp/log algebra beyond the axioms), isi, Victor-Purpura metric laws: bounded numeric checks in native/c20.py",
+    "NOT reachable (declared): integrals of densities, sums of pmf, moments as integrals, isi, Victor-Purpura metric laws: bounded numeric checks in native/c20.py",
 ]
 
 MUTANTS = [
+    dict(file=D, func="LogNormal.params_mv", old="loc = torch.log(meansq / torch.sqrt(meansq + variance))", new="loc = torch.log(meansq / torch.sqrt(meansq - variance))", contracts=["LogNormal.params_mv"]),
+    dict(file=D, func="LogNormal.params_mv", old="scale = torch.sqrt(torch.log(1 + variance / meansq))", new="scale = torch.log(1 + variance / meansq)", contracts=["LogNormal.params_mv"]),
     dict(file=D, func="LogNormal.logcdf", old="torch.log(cls.cdf(support, loc, scale))", new="torch.log(cls.logcdf(support, loc, scale))", contracts=["LogNormal"], name="D20 regression: LogNormal.logcdf self-recursion"),
     dict(file=D, func="Poisson.logpmf", old="torch.lgamma(support + 1)", new="torch.lgamma(rate + 1)", contracts=["Poisson"], name="D21 regression: Poisson normaliser"),
     dict(file=D, func="Normal.cdf", old="0.5 * (1 + torch.special.erf(", new="0.5 * (torch.special.erf(", contracts=["Normal"]),
